@@ -500,6 +500,21 @@ def family_manifest_type(seed):
     return fam
 
 
+def family_policy_switch(seed):
+    """C14 / C01: tables written under one filter policy, read under another whose name sorts before
+    (or, the other way round, after) it; oracle policy_switch / policy_switch_back."""
+    a = lambda s: s.encode().hex() if s else "-"
+    P = lambda k, v: ["put", a(k), a(v)]
+    D = lambda k: ["delete", a(k)]
+    F, C = ["flush"], ["compact"]
+    hs = [
+        [P("apple", "1"), P("banana", "2"), F],
+        [P("a", "1"), P("b", "2"), F, P("b", "3"), D("a"), P("c%d" % (seed % 7), "4"), F, C],
+        [P("k%03d" % i, "v%d" % i) for i in range(0, 60, 3)] + [F],
+    ]
+    return [{"oracle": o, "db": h} for h in hs for o in ("policy_switch", "policy_switch_back")]
+
+
 def known_kinds(family):
     """Committed known findings (status known) of a bounded family, by the kind the oracle reports."""
     try:
@@ -536,6 +551,7 @@ BOUNDS = {
     "family_db_views": "whole-database histories of at most 85 operations over 7 keys (18 hand-written - among them the witnesses of F11 (level-targeted manual compactions with 4 KiB files) and F12 (one byte of the manifest altered between close and reopen; `open` may refuse) - + 10 pseudo-random per seed); every live snapshot and the latest state read back through get, both scan directions, seek to every key, a zig-zag walk and 5 cursor scripts per key; every history ends with a directory check (snapshots and iterators released, one empty flush, then the table files on disk must be those of the current version)",
     "family_scan_damage": "7 databases of 120 keys in table files of about 25 blocks (block size 256); one byte of the newest table file is altered at 7 positions spread over the file; every key is looked up and the database is scanned in both directions; a lookup may fail, a scan may fail, neither may show anything else than the pairs written",
     "family_manifest_type": "3 histories of two or three flushes (one with a manual compaction); while the database is closed the type code of the last, second-to-last or third-to-last fragment of the manifest is changed from Full to First, checksum and payload untouched; each history is also run unaltered (control); `open` may refuse, otherwise every key is looked up and the database is scanned",
+    "family_policy_switch": "3 histories (2, 4 and 20 keys, one with a manual compaction) written under the built-in Bloom policy and read back after a reopen under a policy with its own filter format whose name sorts before the Bloom policy's - and the other way round; every key is looked up",
     "family_log_reader": "write-ahead-log byte streams built from the hand-written and seeded append / reopen / truncate / flip / peek scripts of tools/replay.py (records up to 3 blocks; `peek` = a reader opened between two writer sessions and not drained); the real reader is compared with the reference reader on the resulting bytes and, for scripts without damage, with the records appended",
     "family_table_get": "one table of 16 entries (4 user keys x 4 versions) at block sizes 1, 64, 150, 4096 with 49 lookups, plus a one-entry table",
     "family_key_range": "three hand-written file lists",
